@@ -3,6 +3,7 @@ CONSTANTS
   MaxDepth = 0
   WakeKeeps = FALSE
   RegisterFlagInverted = FALSE
+  DropOldBeforeStore = FALSE
 SPECIFICATION TSpec
 POSTCONDITION TraceAccepted
 CHECK_DEADLOCK FALSE
